@@ -1054,8 +1054,11 @@ def run(ctx):
         "a 32-bit write leaves behind)",
         "float constants in conditions are exactly representable (3.5, 2.5, "
         "0.5); inexact decimals belong to C02",
-        "forms the generator rejects (TypeError/AssembleError while the "
-        "program is written) are counted, not judged"]
+        "forms the generator refuses (TypeError/AssembleError/struct.error "
+        "while the program is written) are counted, not judged; an internal "
+        "error of the generator (failed assertion about a jump placeholder, "
+        "AttributeError, IndexError ...) on a form the statement quantifies "
+        "over is reported as a violation"]
     return res
 
 
